@@ -13,9 +13,9 @@ for d in names:
     conf = ""
     for attempt in range(3):
         conf = subprocess.run(["tools/confirm_seed.sh", wt, src], capture_output=True, text=True, cwd=ROOT).stdout.strip().splitlines()[-1]
-        if "ok. 66 passed" in conf: break
+        if re.search(r"ok. 6[6-9] passed; 0 failed", conf): break
     m = re.search(r"demo_with_change_exit=(\d+) demo_without_exit=(\d+)", conf)
-    ok = "ok. 66 passed" in conf and "doc: test result: ok. 3 passed" in conf and m and m.group(1) == "0" and m.group(2) == "0"
+    ok = re.search(r"ok. 6[6-9] passed; 0 failed", conf) and "doc: test result: ok. 3 passed" in conf and m and m.group(1) == "0" and m.group(2) == "0"
     if not ok:
         print(f"{d} UNCONFIRMED {conf[:300]}"); continue
     out = subprocess.run(["tools/try_seed.sh", prop, os.path.join(src, "patch.diff"), "quick"], capture_output=True, text=True, cwd=ROOT).stdout
